@@ -422,6 +422,17 @@ Definition ingress_ssl_config (tls : option string) (ns : string) (d : deps) (wi
            end
   end.
 
+(* the TLS block of the server templates.  [spiffe] = the resource is an internal route of NGINX
+   Service Mesh (spec.internalRoute / nsm.nginx.com/internal-route with -enable-internal-routes): the
+   server then terminates TLS with the mesh certificate instead of the Secret's -- but a handshake
+   that must be rejected stays rejected (version2 templates: if RejectHandshake ... else if SpiffeCerts;
+   the version1 templates test SpiffeCerts first: finding F81, repaired by fixes/F81.diff).
+   None = ssl_reject_handshake on, no certificate. *)
+Definition spiffe_pem : string := "/etc/nginx/secrets/spiffe_cert.pem".
+
+Definition served_certificate (spiffe : bool) (s : ssl) : option string :=
+  if ssl_reject s then None else Some (if spiffe then spiffe_pem else ssl_cert s).
+
 (* ---------------------------------------------------------------- Ingress authentication *)
 
 (* generateJWTConfig / generateBasicAuthConfig: the directive is configured in every secret state;
